@@ -71,6 +71,38 @@ theorem top_level_not_filtered (chunk : Nat) (hc : 1 ≤ chunk) (f : Filter) (ii
     upload chunk f ii (.file b) = .ok (some (.file b)) := by
   rw [transfer_eq_prune chunk hc]; rfl
 
+/-! ### histories: a transfer onto a name that already exists -/
+
+/-- onto an absent destination the history-aware transfer is the plain one (so everything above applies to
+the first step of a history) -/
+theorem transfer_onto_absent (chunk : Nat) (hc : 1 ≤ chunk) (f : Filter) (ii : Bool) (t : Tree)
+    (hd : distinctNames t = true) : uploadOver chunk f ii t none = upload chunk f ii t := by
+  rw [uploadOver_absent chunk hc f ii t hd, transfer_eq_prune chunk hc]
+
+/-- **A transfer overwrites**: whatever regular file is at the destination name — same size or not, newer or
+not — afterwards it holds the source's bytes exactly. -/
+theorem overwrite_file (chunk : Nat) (hc : 1 ≤ chunk) (f : Filter) (ii : Bool) (b old : Bytes) :
+    uploadOver chunk f ii (.file b) (some (.file old)) = .ok (some (.file b)) :=
+  uploadOver_sameShape chunk hc f ii (.file b) (.file old) (.file b) rfl rfl rfl
+
+/-- **The last transfer wins.** Transferring `t` onto a destination of the shape `t` transfers to (same names,
+files where files are, directories where directories are; any contents) leaves exactly what `t` transfers to:
+every file byte for byte from the last source. -/
+theorem last_transfer_wins (chunk : Nat) (hc : 1 ≤ chunk) (f : Filter) (ii : Bool) (t d pt : Tree)
+    (hd : distinctNames t = true) (hp : prune f t = some pt) (hs : sameShape pt d = true) :
+    uploadOver chunk f ii t (some d) = .ok (some pt) :=
+  uploadOver_sameShape chunk hc f ii t d pt hd hp hs
+
+/-- in particular for a two-step history to one name: first `a`, then `b` whose transferred shape is that of
+`a`'s (a new version of the same tree, or a roll-back to an old one): the destination is `b`'s tree -/
+theorem second_transfer_replaces_first (chunk : Nat) (hc : 1 ≤ chunk) (f : Filter) (ii : Bool) (a b pa pb : Tree)
+    (hda : distinctNames a = true) (hdb : distinctNames b = true)
+    (hpa : prune f a = some pa) (hpb : prune f b = some pb) (hs : sameShape pb pa = true) :
+    uploadOver chunk f ii a none = .ok (some pa)
+      ∧ uploadOver chunk f ii b (some pa) = .ok (some pb) := by
+  refine ⟨?_, last_transfer_wins chunk hc f ii b pa pb hdb hpb hs⟩
+  rw [uploadOver_absent chunk hc f ii a hda, hpa]; rfl
+
 /-- the default chunk size of every transfer function, as found in the source, is ≥ 1: transfers that do
 not pass `chunk_size` are covered by the theorems above (regenerated from /repo on every run) -/
 theorem default_chunk_sizes_copy_exactly :
@@ -111,6 +143,19 @@ example : (items [] sample).filter (keeps (rejectSuffix ".tmp") 0)
   decide +kernel
 
 example : regular (.dir (.cons "e" (.dir .nil) (.cons "f" (.file [0, 255]) .nil))) = true := by decide
+
+/-- a history: version 1, then version 2 with a same-size file changed, then version 1 again (roll-back) -/
+example :
+    uploadOver 2 none false (.dir (.cons "f" (.file [9, 9, 9]) (.cons "d" (.dir (.cons "g" (.file [5]) .nil)) .nil)))
+        (some (.dir (.cons "f" (.file [1, 2, 3]) (.cons "d" (.dir (.cons "g" (.file [4]) .nil)) .nil))))
+      = .ok (some (.dir (.cons "f" (.file [9, 9, 9]) (.cons "d" (.dir (.cons "g" (.file [5]) .nil)) .nil)))) :=
+  last_transfer_wins 2 (by omega) none false _ _ _ (by decide) (by decide +kernel) (by decide)
+
+/-- an entry the destination has and the new source has not stays (directories are merged, not mirrored) -/
+example :
+    uploadOver 2 none false (.dir (.cons "f" (.file [9]) .nil)) (some (.dir (.cons "old" (.file [1]) (.cons "f" (.file [2]) .nil))))
+      = .ok (some (.dir (.cons "old" (.file [1]) (.cons "f" (.file [9]) .nil)))) := by
+  simp [uploadOver, uploadDirOver, passes, Entries.find, Entries.set, copyFile, copyLoop]
 
 /-- sizes around the chunk size, computed by the loop itself (chunk 3: 0, 1, 2, 3, 4, 6, 10 bytes) -/
 example : (List.map (fun n => copyFile 3 (List.range n)) [0, 1, 2, 3, 4, 6, 10])
